@@ -113,6 +113,8 @@ def run_property(pid, build, tier="quick", seed=0, budget_ms=None, thorough_extr
             except Exception as ex: replay = {"error": repr(ex)}
         rec["replay_on_real_code"] = replay
         k = known_match(pid, o.oid, o.model, known)
+        if replay and replay.get("violated") is False and isinstance(o.model, dict) and o.model.get("relaxed_candidate"):
+            undecided.append((o.oid, "relaxed candidate model did not violate the contract on the real code; obligation stays undecided")); del seen_groups[key]; continue
         if replay and replay.get("violated") is False and not replay.get("inconclusive"):
             disagreements.append(f"ENGINE-DISAGREEMENT {o.oid}: solver model does not violate the contract on the real code: {json.dumps(replay)[:400]}")
             continue
